@@ -14,6 +14,7 @@ import core
 import gen_program as G
 import parsecheck as PC
 import realcode as R
+import scancheck
 import semcheck
 import templates
 
@@ -111,6 +112,8 @@ def run(ck):
     elif ck.rng.random() < 0.5:
       ct, what = PC.corrupt(t, ck.rng)
       cases.append((kind + '+corrupt', ct))
+  # (K) the scanner model against both real parsers, on these texts and on random strings of special characters
+  scancheck.run(ck, [t for k, t in cases if 'import ' not in t][:ck.budget(150, 1500)], ck.budget(600, 20000))
   cwd = os.getcwd()
   os.chdir(os.path.join(core.REPO))          # integration tests import relative to the repository root
   try:
